@@ -791,7 +791,8 @@ static double get_free_energy(const double temperature, const double f,
     if (classical) {
         return KB * temperature * log(f / (KB * temperature));
     } else {
-        return KB * temperature * log(1 - exp(-f / (KB * temperature)));
+        /* log(1 - e^-x) with expm1: no loss of digits (or log(0)) at small x */
+        return KB * temperature * log(-expm1(-f / (KB * temperature)));
     }
 }
 
